@@ -7,6 +7,9 @@ import subprocess
 import sys
 
 name, props, path = sys.argv[1:4]
+dirty = subprocess.run(["git", "-C", "/repo", "status", "--porcelain", "--untracked-files=no"], capture_output=True, text=True).stdout
+if dirty.strip():
+    sys.exit("refusing: /repo has uncommitted changes (they would be lost)")
 old, new = sys.stdin.read().split("\n=====\n")
 new = new.rstrip("\n")
 old = old.rstrip("\n")
